@@ -59,6 +59,49 @@ def points(ctx, n):
     return pts[:n]
 
 
+# published closed forms (O'Shaughnessy's mel formula; Traunmueller's critical-band rate with its end corrections),
+# written independently of scales.py on Python floats
+def mel_published(f):
+    return 1127.0 * math.log(1.0 + f / 700.0)
+
+
+def mel_published_inv(m):
+    return 700.0 * (math.exp(m / 1127.0) - 1.0)
+
+
+def bark_published(f):
+    z = 26.81 * f / (1960.0 + f) - 0.53
+    if z < 2.0:
+        z += 0.15 * (2.0 - z)
+    elif z > 20.1:
+        z += 0.22 * (z - 20.1)
+    return z
+
+
+def bark_published_inv(s):
+    if s < 2.0:
+        z = (s - 0.3) / 0.85
+    elif s > 20.1:
+        z = (s + 4.422) / 1.22
+    else:
+        z = s
+    return 1960.0 * (z + 0.53) / (26.28 - z)
+
+
+PUBLISHED = {"mel": (mel_published, mel_published_inv), "bark": (bark_published, bark_published_inv)}
+
+# octave reference frequencies: ordinary ones and positive ones below the 1e-10 floor that both directions apply
+# (the constructor accepts every positive low_hz)
+OCTAVE_LOW = [20.0, 1.0, 55.5, 1e-3]
+OCTAVE_LOW_TINY = [1e-11, 3e-12, 9.9e-11, 1e-15, 1e-300, 5e-324]
+
+
+def int_kinds(np):
+    """Integer-typed spellings of a whole number: Python int, numpy integer scalars, an element of an integer array."""
+    return [("int", int), ("np.int32", np.int32), ("np.int64", np.int64),
+            ("int-array-element", lambda k: np.arange(k, k + 1)[0])]
+
+
 def search(ctx, scales_mod, np):
     """Direct executable statement of the property on the implementation."""
     bad = []
@@ -70,17 +113,69 @@ def search(ctx, scales_mod, np):
 
     tol = 1e-9
     mk = {
-        "mel": lambda: scales_mod.MelScaling(),
-        "bark": lambda: scales_mod.BarkScaling(),
-        "linear": lambda: scales_mod.LinearScaling(r.choice([0.0, 10.0, -5.0, 123.5]), r.choice([1.0, 0.5, 2.0, 3.25])),
-        "octave": lambda: scales_mod.OctaveScaling(r.choice([20.0, 1.0, 55.5, 1e-3])),
+        "mel": lambda rep: scales_mod.MelScaling(),
+        "bark": lambda rep: scales_mod.BarkScaling(),
+        "linear": lambda rep: scales_mod.LinearScaling(r.choice([0.0, 10.0, -5.0, 123.5]), r.choice([1.0, 0.5, 2.0, 3.25])),
+        # every other octave scale has a positive low_hz below the 1e-10 floor
+        "octave": lambda rep: scales_mod.OctaveScaling(r.choice(OCTAVE_LOW_TINY if rep % 2 else OCTAVE_LOW)),
     }
+
+    def int_typed(name, s, lo):
+        """A whole number of hertz / a whole scale value may be passed as a Python int, a numpy integer or an element
+        of an integer array: it denotes the same real number as the equal float, so both directions must give the
+        same result (hence the same round trips, monotonicity and published values) as for the float."""
+        params = {k: getattr(s, k) for k in ("low_hz", "slope_hz") if hasattr(s, k)}
+        f_lo, f_hi = int(math.ceil(lo)), 20000
+        if name == "octave":
+            f_lo = max(f_lo, 1)
+        s_lo, s_hi = float(s.hertz_to_scale(float(lo))), float(s.hertz_to_scale(1e5))  # the image of the domain
+        k_lo, k_hi = int(math.ceil(s_lo)), int(math.floor(s_hi))
+        if name == "octave":
+            # numpy integers: 2 ** k needs 0 <= k, and 2 ** 31 leaves int32 (only met when low_hz is below the floor)
+            k_lo, k_hi = max(k_lo, 0), min(k_hi, 30)
+        hz = sorted(set([f_lo, f_lo + 1, 204, 205, 1000, 6542, 6543, f_hi] + [r.randrange(f_lo, f_hi + 1) for _ in range(12)]))
+        hz = [f for f in hz if f >= f_lo]
+        if k_hi - k_lo <= 40:
+            ks = list(range(k_lo, k_hi + 1))
+        else:
+            ks = sorted(set([k_lo, k_lo + 1, k_hi - 1, k_hi] + [r.randrange(k_lo, k_hi + 1) for _ in range(24)]))
+            ks = sorted(set(ks + [k + 1 for k in ks if k < k_hi]))
+        pub = PUBLISHED.get(name)
+        for kind, conv in int_kinds(np):
+            for direction, fn, args, ref in (("hertz_to_scale", s.hertz_to_scale, hz, pub and pub[0]),
+                                             ("scale_to_hertz", s.scale_to_hertz, ks, pub and pub[1])):
+                inv = s.scale_to_hertz if direction == "hertz_to_scale" else s.hertz_to_scale
+                prev = None
+                for k in args:
+                    det = dict(scale=name, params=params, function=direction, argument=k, argument_type=kind)
+                    want = float(fn(float(k)))
+                    try:
+                        got = fn(conv(k))
+                        back = float(inv(got))
+                        got = float(got)
+                    except Exception as e:  # the float argument is accepted
+                        chk("integer_argument_raises", False, dict(det, error=repr(e), result_for_float=want))
+                        continue
+                    det.update(result=got, result_for_float=want, back=back)
+                    chk("integer_argument_like_float", abs(got - want) <= tol * max(1.0, abs(want)), det)
+                    chk("integer_argument_roundtrip", abs(back - k) <= tol * max(1.0, abs(k)), det)
+                    if ref:
+                        chk("integer_argument_published", abs(got - ref(float(k))) <= tol * max(1.0, abs(want)), dict(det, published=ref(float(k))))
+                    if prev is not None:
+                        chk("integer_argument_increasing", got > prev[1], dict(det, previous_argument=prev[0], previous_result=prev[1]))
+                    prev = (k, got)
+                    ctx.count("search:int-typed-%s-%s" % (name, direction))
+
     for name, ctor in mk.items():
         for rep in range(ctx.scale(6, 40)):
-            s = ctor()
+            s = ctor(rep)
             lo = getattr(s, "low_hz", 0.0) if name == "octave" else 0.0
             fs = sorted(set([lo, lo + 1e-6, 1e5] + [r.uniform(lo, 1e5) for _ in range(60)] + [10 ** r.uniform(-3, 5) + lo for _ in range(60)]))
             fs = [f for f in fs if f > 0 or name != "octave"]
+            if name == "octave":
+                # around the floor 1e-10 that both directions apply to low_hz
+                fs = sorted(set(fs + [f for f in (1e-10, 2e-10, 2 * lo, 1024 * lo) if f >= lo]))
+                ctx.count("search:octave-low_hz-below-floor" if lo < 1e-10 else "search:octave-low_hz-ordinary")
             if name == "bark":
                 for z in (2.0, 20.1):
                     f0 = 1960.0 * (z + 0.53) / (26.28 - z)
@@ -98,6 +193,7 @@ def search(ctx, scales_mod, np):
                     chk("increasing", v > prev[1], dict(scale=name, params=params, f1=prev[0], f2=f, s1=float(prev[1]), s2=float(v)))
                 prev = (f, v)
                 ctx.count("search:" + name)
+            int_typed(name, s, lo)
     # documented public attributes (low_hz, slope_hz) re-assigned on a USED object: both directions must follow the
     # current values (an object used, re-tuned, used again behaves like a fresh one built with the new values)
     for rep in range(ctx.scale(10, 60)):
@@ -107,7 +203,7 @@ def search(ctx, scales_mod, np):
             new = dict(low_hz=r.choice([5.0, 40.0, 0.0]), slope_hz=r.choice([3.25, 1.0, 0.25]))
         else:
             s = scales_mod.OctaveScaling(r.choice([20.0, 1.0, 55.5]))
-            new = dict(low_hz=r.choice([10.0, 27.5, 440.0]))
+            new = dict(low_hz=r.choice([10.0, 27.5, 440.0] + OCTAVE_LOW_TINY[:3]))
         old_params = {k: getattr(s, k) for k in new}
         f0 = r.uniform(500.0, 5000.0)
         s.scale_to_hertz(s.hertz_to_scale(f0))  # use it once
